@@ -520,11 +520,16 @@ pub fn child_stdout() -> i32 {
     use std::os::unix::io::AsRawFd;
     let mut n = 0u64;
     for mode in ["dev-full", "broken-pipe"] {
-        for ext in ["", ".gz"] {
+        // the step that fails: the final move/compress (window of 1, directory at slot 0) or an archive shift
+        // (window of 2, an archive at slot 0 and a directory at slot 1)
+        for (ext, count) in [("", 1u32), (".gz", 1), ("", 2), (".gz", 2)] {
             n += 1;
             let sb = Sandbox::new();
-            std::fs::create_dir_all(sb.path(&format!("arch/app.0.log{}", ext)).join("occupied")).unwrap();
-            let roller = FixedWindowRoller::builder().build(&format!("{}/arch/app.{{}}.log{}", sb.dir.display(), ext), 1).unwrap();
+            std::fs::create_dir_all(sb.path(&format!("arch/app.{}.log{}", count - 1, ext)).join("occupied")).unwrap();
+            if count == 2 {
+                std::fs::write(sb.path(&format!("arch/app.0.log{}", ext)), b"older").unwrap();
+            }
+            let roller = FixedWindowRoller::builder().build(&format!("{}/arch/app.{{}}.log{}", sb.dir.display(), ext), count).unwrap();
             let app = RollingFileAppender::builder()
                 .encoder(Box::new(log4rs::encode::pattern::PatternEncoder::new("{m}")))
                 .build(sb.path("app.log"), Box::new(CompoundPolicy::new(Box::new(SizeTrigger::new(5)), Box::new(roller))))
@@ -545,7 +550,7 @@ pub fn child_stdout() -> i32 {
             let r = catch_panic(|| app.append(&Record::builder().level(log::Level::Info).args(format_args!("0123456789")).build()));
             let active = std::fs::read(sb.path("app.log")).unwrap_or_default();
             let line = match r {
-                Err(ref p) => json!({"kind": "violation", "sig": format!("stdout-unwritable:panic:{}", panic_site(p)), "detail": format!("standard output {} and a failing rotation (archive {}): append panicked instead of returning the error: {}", mode, if ext.is_empty() { "plain" } else { "gzip" }, p), "case": {"stdout": mode, "ext": ext}}),
+                Err(ref p) => json!({"kind": "violation", "sig": format!("stdout-unwritable:panic:{}", panic_site(p)), "detail": format!("standard output {} and a failing rotation (archive {}): append panicked instead of returning the error: {}", mode, if ext.is_empty() { "plain" } else { "gzip" }, p), "case": {"stdout": mode, "ext": ext, "count": count}}),
                 Ok(Ok(())) => json!({"kind": "violation", "sig": "stdout-unwritable:no-error-reported", "detail": format!("standard output {}: the failing rotation was not reported", mode), "case": {"stdout": mode, "ext": ext}}),
                 Ok(Err(_)) if active != b"0123456789" => json!({"kind": "violation", "sig": "stdout-unwritable:acknowledged-data-lost", "detail": format!("active file holds {:?}", String::from_utf8_lossy(&active)), "case": {"stdout": mode, "ext": ext}}),
                 Ok(Err(_)) => json!({"kind": "ok"}),
